@@ -51,6 +51,11 @@ def _models():
         "Chain with frozen Loc": lambda: fb.Chain([fb.Affine(jnp.array([0.5, -1.0]), jnp.array([2.0, 0.5])), non_trainable(fb.Loc(jnp.array([0.1, 0.2])))]),
         "coupling_flow": lambda: flows.coupling_flow(key, base_dist=fd.StandardNormal((2,)), flow_layers=1, nn_width=2),
         "Normal": lambda: fd.Normal(jnp.array([0.3, -0.2]), jnp.array([1.5, 0.7])),
+        # distributions that consume a wrapper-valued parameter DIRECTLY (not through a bijection): only the distribution's own unwrap protects them
+        "StudentT (df is a BijectionReparam)": lambda: fd.StudentT(jnp.array([2.5, 4.0]), jnp.array([0.3, -0.2]), jnp.array([1.5, 0.7])),
+        "VmapMixture (weights are a Lambda)": lambda: fd.VmapMixture(eqx.filter_vmap(fd.Normal)(jnp.array([0.0, 1.5]), jnp.array([1.0, 0.6])), jnp.array([1.0, 3.0])),
+        "Transformed(StudentT, Affine)": lambda: fd.Transformed(fd.StudentT(jnp.array([3.0]), jnp.array([0.3]), jnp.array([1.5])), fb.Affine(jnp.array([0.5]), jnp.array([2.0]))),
+        "frozen StudentT": lambda: non_trainable(fd.StudentT(jnp.array(3.0), jnp.array(0.3), jnp.array(1.5))),
     }
     return M
 
@@ -146,7 +151,8 @@ def ob_methods():
     from ..sym import f64, leaves_of, symarr, trace
     M = _models()
     out = []
-    for name in ("Affine", "RQS (Lambda wrappers)", "Chain with frozen Loc", "coupling_flow", "Normal"):
+    for name in ("Affine", "RQS (Lambda wrappers)", "Chain with frozen Loc", "coupling_flow", "Normal", "StudentT (df is a BijectionReparam)", "VmapMixture (weights are a Lambda)",
+                 "Transformed(StudentT, Affine)", "frozen StudentT"):
         m = f64(M[name]())
         leaves, mk, paths = leaves_of(m)
         syms = [symarr(f"p{i}", l.shape) for i, l in enumerate(leaves)]
@@ -167,8 +173,21 @@ def ob_methods():
         strip = np.vectorize(lambda v: jx.split(v)[0], otypes=[object])
         jx.set_path([], ctx.facts)
         for label, f, arg, ex in calls:
-            a = I.run(trace(lambda ls, v: f(mk(ls), v), leaves, ex), *syms, arg)
-            b = I.run(trace(lambda ls, v: f(unwrap(mk(ls)), v), leaves, ex), *syms, arg)
+            try:
+                b = I.run(trace(lambda ls, v: f(unwrap(mk(ls)), v), leaves, ex), *syms, arg)
+            except jx.Unsupported:
+                raise
+            except Exception as e:  # noqa
+                bad.append(f"{label} (on the unwrapped object: {type(e).__name__})")
+                continue
+            try:
+                a = I.run(trace(lambda ls, v: f(mk(ls), v), leaves, ex), *syms, arg)
+            except jx.Unsupported:
+                raise
+            except Exception as e:  # noqa
+                # the method works on the pre-unwrapped object but not on the wrapped one: the method did not unwrap what it uses
+                bad.append(f"{label} (raises {type(e).__name__} on the wrapped object only)")
+                continue
             n += 1
             for p_, q_ in zip(a, b):
                 if p_.shape != q_.shape:
@@ -192,14 +211,34 @@ def ob_methods():
 
 
 def replay_methods(name):
+    """every public method on the wrapped object vs on unwrap(object), real code"""
     import jax.numpy as jnp
+    import jax.random as jr
     import flowjax.distributions as fd
     from flowjax.wrappers import unwrap
     m = _models()[name]()
     x = jnp.full(m.shape, 0.37)
-    f = (lambda d: d.log_prob(x)) if isinstance(m, fd.AbstractDistribution) else (lambda d: d.transform(x))
-    a, b = np.asarray(f(m)), np.asarray(f(unwrap(m)))
-    return (not np.allclose(a, b)), f"wrapped {a.tolist()} vs pre-unwrapped {b.tolist()}"
+    k = jr.PRNGKey(3)
+    if isinstance(m, fd.AbstractDistribution):
+        calls = {"log_prob": lambda d: d.log_prob(x), "sample": lambda d: d.sample(k), "sample_and_log_prob": lambda d: d.sample_and_log_prob(k)}
+    else:
+        calls = {mm: (lambda d, mm=mm: getattr(d, mm)(x)) for mm in ("transform", "inverse", "transform_and_log_det", "inverse_and_log_det")}
+    bad = []
+    for label, f in calls.items():
+        try:
+            b = f(unwrap(m))
+        except Exception as e:  # noqa
+            continue
+        try:
+            a = f(m)
+        except Exception as e:  # noqa
+            bad.append(f"{label} raises {type(e).__name__} on the wrapped object but works on unwrap(object)")
+            continue
+        import jax
+        for u, w in zip(jax.tree_util.tree_leaves(a), jax.tree_util.tree_leaves(b)):
+            if not np.allclose(np.asarray(u), np.asarray(w), equal_nan=True):
+                bad.append(f"{label}: wrapped {np.asarray(u).tolist()} vs pre-unwrapped {np.asarray(w).tolist()}")
+    return bool(bad), "; ".join(bad[:2]) or "wrapped and pre-unwrapped objects agree on the replay point"
 
 
 def ob_frozen_grad():
